@@ -139,19 +139,30 @@ def accept_rules(fi, pm):
         out.append((holds if ok else unrecognised)("R-ACCEPT", fi, role, "iteration = 0 ... if iteration == max_iter: break ... iteration += 1", mi[0]))
     # 2. reset of the running best at the start of each iteration
     role = "the running best is reset to (0, -1, -1) at the start of every iteration"
-    rs = [s for s in body if isinstance(s, ast.Assign) and unparse(s.targets[0]) == "(best_improvement, best_motif_idx, best_pos)"]
-    if not rs or body.index(rs[0]) > body.index(ml):
-        out.append(violation("R-ACCEPT", fi, role, "running best is not reset inside the iteration before the search", w))
-    elif unparse(rs[0].value) != "(0, -1, -1)":
-        t = unparse(rs[0].value)
-        bi = rs[0].value.elts[0] if isinstance(rs[0].value, ast.Tuple) else None
-        c = const_value(bi) if bi is not None else None
-        if isinstance(c, (int, float)) and c < 0:
-            out.append(violation("R-ACCEPT", fi, role, "best_improvement starts at %s: a loss-increasing substitution can be accepted" % c, rs[0]))
-        else:
-            out.append(unrecognised("R-ACCEPT", fi, role, t, rs[0]))
+    pre = [s for s in body[:body.index(ml)] if isinstance(s, ast.Assign) and len(s.targets) == 1]
+    vals = {}
+    for s_ in pre:
+        tg = s_.targets[0]
+        if isinstance(tg, ast.Tuple) and isinstance(s_.value, ast.Tuple) and len(tg.elts) == len(s_.value.elts):
+            for a_, b_ in zip(tg.elts, s_.value.elts):
+                vals[unparse(a_)] = (b_, s_)
+        elif isinstance(tg, ast.Name):
+            vals[tg.id] = (s_.value, s_)
+    bi = vals.get("best_improvement")
+    if bi is None:
+        # named deviation: the best of the previous iteration survives, so a position is accepted without being the best of this iteration
+        out.append(violation("R-ACCEPT", fi, role, "best_improvement is not reset inside the iteration before the search", w))
     else:
-        out.append(holds("R-ACCEPT", fi, role, unparse(rs[0]), rs[0]))
+        c = const_value(bi[0])
+        got = tuple(unparse(vals[k][0]) if k in vals else None for k in ("best_improvement", "best_motif_idx", "best_pos"))
+        if isinstance(c, (int, float)) and c < 0:
+            out.append(violation("R-ACCEPT", fi, role, "best_improvement starts at %s: a loss-increasing substitution can be accepted" % c, bi[1]))
+        elif got == ("0", "-1", "-1"):
+            out.append(holds("R-ACCEPT", fi, role, "best_improvement, best_motif_idx, best_pos = 0, -1, -1", bi[1]))
+        elif got[1] is None:
+            out.append(violation("R-ACCEPT", fi, role, "best_motif_idx is not reset: an iteration without improvement re-applies the previous substitution", bi[1]))
+        else:
+            out.append(unrecognised("R-ACCEPT", fi, role, str(got), bi[1]))
     # 3. strict improvement inside the motif loop, over all motifs
     role = "a candidate replaces the running best only on strictly larger improvement; all motifs share the one running best"
     ifs = [s for s in ml.body if isinstance(s, ast.If) and "best_improvement" in unparse(s.test)]
